@@ -360,6 +360,75 @@ fn genesis_spends(run: &Run, fams: &[Family]) {
     }
 }
 
+/// Readers of the previous header's three 128-bit scalars (fee pool, fee multiplier, DOSC speed) on chains where those have
+/// grown past 64 bits: the covenant must see the header's own values, not their low halves.
+fn large_header_readers(run: &Run) {
+    use OpCode::*;
+    let big = |v: u128| OpCode::PushI(ethnum::U256::from(v));
+    let values: [u128; 5] = [(1 << 64) - 1, 1 << 64, (1 << 64) + 12345, (1 << 100) + 7, (1 << 119) + 3];
+    let grid: Vec<(u64, u128)> = (6u64..=8).flat_map(|k| values.iter().map(move |v| (k, *v))).collect();
+    grid.par_iter().for_each(|(k, v)| {
+        let (k, v) = (*k, *v);
+        // the multiplier prices the spend itself: keep it where a coin can still pay for it
+        let v = if k == 7 { v.min((1 << 100) + 7) } else { v };
+        let field = || vec![pi(k), LoadImm(10), VRef];
+        let cat = |a: Vec<OpCode>, b: Vec<OpCode>| a.into_iter().chain(b).collect::<Vec<_>>();
+        let programs: Vec<(&str, Vec<OpCode>)> = vec![
+            ("field<2^64", cat(vec![big(1 << 64)], cat(field(), vec![Lt]))),
+            ("2^64-1<field", cat(field(), vec![big((1 << 64) - 1), Lt])),
+            ("field==its-value", cat(field(), vec![big(v), Eql])),
+            ("field==its-low-64-bits", cat(field(), vec![big(v & ((1 << 64) - 1)), Eql])),
+            ("field>>64==0", cat(vec![pi(64)], cat(field(), vec![Shr, pi(0), Eql]))),
+        ];
+        let coin: u128 = 1 << 110;
+        let w = world_mel(NetID::Custom02, 1 << 119, 0);
+        let g = w.genesis.clone().seal(None);
+        let mut u = g.next_unsealed();
+        let mut outs: Vec<_> = programs.iter().map(|(_, p)| out(Covenant::from_ops(p).hash(), coin, Denom::Mel)).collect();
+        outs.push(out_t((1 << 119) - coin * programs.len() as u128, Denom::Mel));
+        let fund = tx_t(TxKind::Normal, vec![CoinID::zero_zero()], outs, 0, vec![]);
+        u.apply_tx(&fund).expect("funding header readers");
+        let s1 = u.seal(None);
+        let (fp, fm, ds) = match k {
+            6 => (v, 0, 1_000_000),
+            7 => (0, v, 1_000_000),
+            _ => (0, 0, v),
+        };
+        let fab = match guard(|| fabricate_with(&s1, &w.db, NetID::Custom02, 7, fp, fm, ds)) {
+            Ok(f) => f,
+            Err(_) => {
+                run.outcome("large-header:fabrication-panicked");
+                return;
+            }
+        };
+        let lh = fab.header();
+        let st = fab.next_unsealed();
+        run.state();
+        for (i, (name, p)) in programs.iter().enumerate() {
+            let id = fund.output_coinid(i as u8);
+            let cdh = CoinDataHeight { coin_data: fund.outputs[i].clone(), height: BlockHeight(1) };
+            let cov = Covenant::from_ops(p).to_bytes();
+            let probe = mktx(TxKind::Normal, vec![id], vec![out_t(coin, Denom::Mel)], 1 << 109, vec![cov.clone()], vec![]);
+            let fee = min_fee(&probe, fm) * 2;
+            let tx = mktx(TxKind::Normal, vec![id], vec![out_t(coin - fee, Denom::Mel)], fee, vec![cov], vec![]);
+            run.transition();
+            let (exp, why) = expected(&tx, &[(id, cdh)], lh);
+            let mut s2 = st.clone();
+            let got = guard(|| s2.apply_tx(&tx));
+            run.validated();
+            let what = format!("header field {} = {} / covenant {}", k, v, name);
+            match got {
+                Ok(Ok(())) if !exp => run.violation("C04", "spent-without-approval/large-header".into(), format!("{}: spent although {}", what, why), json!({"field": k, "value": v.to_string(), "covenant": name, "tx": tx_json(&tx)})),
+                Ok(Err(e)) if exp => run.violation("C04", "approved-spend-rejected/large-header".into(), format!("{}: {}", what, e), json!({"field": k, "value": v.to_string(), "covenant": name, "tx": tx_json(&tx)})),
+                Ok(Ok(())) => run.outcome("large-header:accepted-as-expected"),
+                Ok(Err(_)) => run.outcome("large-header:rejected-as-expected"),
+                Err(_) => run.outcome("large-header:panic(reported under C09)"),
+            }
+        }
+    });
+    run.set("large_header_grid", json!({"fields": ["fee_pool", "fee_multiplier", "dosc_speed"], "values": values.iter().map(|v| v.to_string()).collect::<Vec<_>>(), "covenants_per_point": 5}));
+}
+
 pub fn run(run: &Run) {
     let thorough = run.thorough();
     let fams = families();
@@ -441,6 +510,7 @@ pub fn run(run: &Run) {
         });
     }
     genesis_spends(run, &fams);
+    large_header_readers(run);
     let progs = program_families(run, if thorough { 4 } else { 3 });
     run.states_add(progs);
     run.set("environment_reading_programs", json!(progs));
